@@ -182,9 +182,50 @@ def generate_pairs(rng, idx, tier):
     return {'spec': spec, 'ops': ops}
 
 
+_LABEL_POINTS = None
+LABEL_SYS_TYPES = ['range', 'range_step', 'list_int', 'list_str', 'list_mixed', 'np_int', 'np_str', 'pd_index_int', 'pd_index_str', 'pd_period_y', 'pd_period_q', 'pd_datetime']
+
+
+def label_points():
+    """Every (span type, length 1-5, start, stop, step, get/set, label form) over small spans: the exhaustive part of C10."""
+    global _LABEL_POINTS
+    if _LABEL_POINTS is None:
+        pts = []
+        for ty in LABEL_SYS_TYPES:
+            for n in range(1, 6):
+                ends = [None] + list(range(n)) + ['absent']
+                for a in ends:
+                    for b in ends:
+                        for st in (None, 1, 2, 3):
+                            for write in (False, True):
+                                pts.append((ty, n, a, b, st, write))
+        _LABEL_POINTS = pts
+    return _LABEL_POINTS
+
+
+def generate_labels_sys(rng, idx, tier):
+    pts = label_points()
+    point = idx % len(pts) if tier == 'thorough' else (idx * 7919) % len(pts)
+    ty, n, a, b, st, write = pts[point]
+    spec = {'family': 'vc', 'span': {'type': ty, 'n': n, 'origin': [0, 3, -2][point % 3], 'step': 2}, 'strict': False}
+    ops = [{'op': 'add_variable', 'obj': 0, 'name': 'V0', 'value': {'k': 'seq', 'c': 'list', 'len': 'n', 'e': 'float', 'base': 10}, 'dtype': 'float'}]
+    form = point % 2
+    if write:
+        ops.append({'op': 'setitem_slice', 'obj': 0, 'name': 'V0', 'a': a, 'b': b, 'step': st, 'fa': form, 'fb': 1 - form, 'value': {'k': 'scalar', 'e': 'float', 'base': 500}})
+        for pos in range(n):
+            ops.append({'op': 'setitem_label', 'obj': 0, 'name': 'V0', 'pos': pos, 'form': (pos + form) % 2, 'value': {'k': 'scalar', 'e': 'float', 'base': 700 + pos}})
+    elif 'absent' in (a, b):
+        ops.append({'op': 'setitem_slice', 'obj': 0, 'name': 'V0', 'a': a, 'b': b, 'step': st, 'fa': form, 'fb': 1 - form, 'value': {'k': 'scalar', 'e': 'float', 'base': 500}})
+    else:
+        ops.append({'op': 'get', 'obj': 0, 'name': 'V0', 'a': a, 'b': b, 'step': st, 'pos': point % n, 'form': form})
+    return {'spec': spec, 'ops': ops, 'lattice_point': point}
+
+
 def generate(rng, idx, tier, variant):
     if variant == 'pairs':
         return generate_pairs(rng, idx, tier)
+    if variant == 'labels_sys':
+        return generate_labels_sys(rng, idx, tier)
     fam = gen_family(rng, variant)
     one_sub = fam == 'linker' and rng.random() < 0.35  # a linker over a single submodel can sit on any span type
     n = rng.randint(1, 12 if tier == 'thorough' else 8)
